@@ -4,12 +4,14 @@
 # /verif/bin/vgen[.race] from it, remove the temp module.
 set -eu
 HERE="$(cd "$(dirname "$0")" && pwd)"
+VERIF_DIR="${VERIF_DIR:-$(cd "$HERE/../.." && pwd)}"
 export GOFLAGS=-mod=mod GOPROXY=off GOSUMDB=off GOTOOLCHAIN=local
 SRC="${VERIF_REPO:-/repo}"
 T="$(mktemp -d /tmp/vgen.XXXXXX)"
 if [ -z "${VGEN_KEEP:-}" ]; then trap 'rm -rf "$T"' EXIT; else echo "kept $T"; fi
 cp -r "$HERE/tmpl/." "$T/"
-cp /verif/harness/go.sum "$T/go.sum" 2>/dev/null || true
+cp "$VERIF_DIR/harness/go.sum" "$T/go.sum" 2>/dev/null || true
+sed -i "s#=> /verif/harness#=> $VERIF_DIR/harness#" "$T/go.mod"
 mkdir -p "$T/kqfsnotify" "$T/winx" "$T/fenx"
 for f in backend_kqueue.go shared.go fsnotify.go verif_off.go; do
   sed -e 's#"golang.org/x/sys/unix"#unix "kqsim/simunix"#' \
@@ -23,7 +25,7 @@ sed -e '/^\/\/go:build/d' "$SRC/fsnotify.go" > "$T/fenx/fsnotify.go"
 mv "$T/winstub" "$T/winx/stub"
 ( cd "$T" && go run ./winextract "$SRC" "$T" )
 rm -f "$T/kqexport.go.txt"
-OUT=/verif/bin/vgen
+OUT="$VERIF_DIR/bin/vgen"
 FLAGS="-tags verif"
-if [ "${1:-}" = race ]; then OUT=/verif/bin/vgen.race; FLAGS="-race -tags verif"; fi
+if [ "${1:-}" = race ]; then OUT="$VERIF_DIR/bin/vgen.race"; FLAGS="-race -tags verif"; fi
 ( cd "$T" && go build $FLAGS -o "$OUT" ./cmd/vgen )
